@@ -202,11 +202,12 @@ FailExact(Asg, st, ev) ==
          ELSE IF ev.call = "is_true" THEN (IF \A a \in F : Holds(ev.e, a) THEN {} ELSE {"is_true-overclaims"})
          ELSE (IF \A a \in F : ~Holds(ev.e, a) THEN {} ELSE {"is_false-overclaims"})
     [] ev.call = "unsat_core" ->
+         \* relative to extra constraints: F = models that also satisfy them; the core may contain them
          IF ev.exc # "" THEN {"exc"}
-         ELSE IF M # {} THEN (IF Len(ev.rets) = 0 THEN {} ELSE {"core-on-sat"})
-         ELSE (IF \A i \in 1..Len(ev.rets) : ev.rets[i] \in st.added[ev.s] \cup SeqRange(ev.scons)
+         ELSE IF F # {} THEN (IF Len(ev.rets) = 0 THEN {} ELSE {"core-on-sat"})
+         ELSE (IF \A i \in 1..Len(ev.rets) : ev.rets[i] \in st.added[ev.s] \cup SeqRange(ev.scons) \cup SeqRange(ev.extra)
                   THEN {} ELSE {"core-not-subset"})
-              \cup (IF DenAll(Asg, ev.rets) = {} THEN {} ELSE {"core-satisfiable"})
+              \cup (IF DenAll(Asg, ev.rets) \cap DenAll(Asg, ev.extra) = {} THEN {} ELSE {"core-satisfiable"})
     [] ev.call = "split" ->
          IF ev.exc # "" THEN {"exc"} ELSE
          LET G == ev.groups
